@@ -124,8 +124,12 @@ let section (name : string) (next : string list) (toks : string list) =
   | t :: r when t = name -> upto next [] r
   | _ -> failwith ("expected section " ^ name)
 
+let skel_line_ref : (string -> string) ref = ref (fun f -> "skel " ^ f)
+
 let run (toks : string list) : string =
   match toks with
+  | "S" :: _ -> "search ok"
+  | "K" :: f :: _ -> !skel_line_ref f
   | capt :: rest ->
       let cap = n (int_of_string capt) in
       let phys = phys_of cap in
@@ -183,11 +187,14 @@ let base () =
   let s = init0 [ Send ] [ Recv ] in
   { s with tok_p = true; tok_c = true }
 
+let skel_var = function
+  | VClosedP | VClosedC -> "closed" | VNotifP | VNotifC -> "notified" | v -> show_var v
+
 let ev_of_row (r : row) : string =
   let cap = n 2 and phys = n 2 in
-  let show (e : event0) = Printf.sprintf "%s %s %s" (show_var e.evr) (show_kind e.ek) (show_ord e.eo) in
+  let show (e : event0) = Printf.sprintf "%s.%s.%s" (skel_var e.evr) (show_kind e.ek) (show_ord e.eo) in
   match r with
-  | Call f -> "call " ^ f
+  | Call f -> "call." ^ f
   | PRow pc -> (
       let s = { (base ()) with ppc = pc } in
       let c = if pc = PSpinDec then CSpin else CGo in
@@ -208,13 +215,14 @@ let skeleton : (string * row list) list =
      [ PRow (PUnreg (UOk, UnLock)); PRow (PUnreg (UOk, UnSt)); CRow (CUnreg (CUVal, UnLock)); CRow (CUnreg (CUVal, UnSt)) ]);
     ("shared.rs::SpscShared::wake_one",
      [ CRow (CWake (WNotify, WkLock)); CRow (CWake (WNotify, WkSt0)); CRow (CWake (WNotify, WkStN));
-       PRow (PWake (WNotify, WkLock)); PRow (PWake (WNotify, WkSt0)); PRow (PWake (WNotify, WkStN)) ]);
+       PRow (PWake (WNotify, WkLock)); PRow (PWake (WNotify, WkSt0)); PRow (PWake (WNotify, WkStN)); Call "wake" ]);
     ("shared.rs::SpscShared::notify_receivers", [ PRow PNfFence; PRow PNfLd; Call "wake_one" ]);
     ("shared.rs::SpscShared::notify_senders", [ CRow CNfFence; CRow CNfLd; Call "wake_one" ]);
     ("shared.rs::SpscShared::pre_park_fence", [ PRow PFence ]);
     ("shared.rs::SpscShared::drop_sender", [ PRow PDrSub; Call "wake_one" ]);
     ("shared.rs::SpscShared::drop_receiver", [ CRow CDrSub; Call "wake_one" ]);
-    ("shared.rs::WakeRef::wake", [ PRow (PWake (WNotify, WkUnpark)) ]);
+    (* the second row is the Waker arm (async handles), outside this model *)
+    ("shared.rs::WakeRef::wake", [ PRow (PWake (WNotify, WkUnpark)); Call "wake" ]);
     ("bounded_sync.rs::BoundedSyncSender::close_internal", [ PRow PDrStore; Call "drop_sender" ]);
     ("bounded_sync.rs::BoundedSyncSender::try_send",
      [ PRow PIdle; PRow (PCd KTry); Call "push"; Call "notify_receivers" ]);
@@ -233,29 +241,31 @@ let skeleton : (string * row list) list =
     ("bounded_sync.rs::BoundedSyncReceiver::drop", [ CRow CIdle; Call "close_internal" ]);
     ("sync_util.rs::park_thread", [ CRow CPark ]) ]
 
-let print_skeleton () =
-  List.iter
-    (fun (f, rows) ->
-      List.iteri
-        (fun i r ->
-          let r =
-            (* the Drop rows run with an empty program *)
-            match r with
-            | PRow PIdle when String.length f > 4 && String.sub f (String.length f - 4) 4 = "drop" ->
-                let s = { (init0 [] []) with ppc = PIdle } in
-                (match step0 (n 2) (n 2) s TP CGo with
-                 | Some (_, e) -> Printf.sprintf "%s %s %s" (show_var e.evr) (show_kind e.ek) (show_ord e.eo)
-                 | None -> "DISABLED")
-            | CRow CIdle when String.length f > 4 && String.sub f (String.length f - 4) 4 = "drop" ->
-                let s = { (init0 [] []) with cpc = CIdle } in
-                (match step0 (n 2) (n 2) s TC CGo with
-                 | Some (_, e) -> Printf.sprintf "%s %s %s" (show_var e.evr) (show_kind e.ek) (show_ord e.eo)
-                 | None -> "DISABLED")
-            | _ -> ev_of_row r
-          in
-          Printf.printf "%s | %d | %s\n" f i r)
-        rows)
-    skeleton
+let is_drop f = String.length f > 4 && String.sub f (String.length f - 4) 4 = "drop"
+
+let rows_of (f : string) (rows : row list) : string list =
+  List.map
+    (fun r ->
+      (* the Drop rows run with an empty program *)
+      let drop_ev tid s =
+        match step0 (n 2) (n 2) s tid CGo with
+        | Some (_, e) -> Printf.sprintf "%s.%s.%s" (skel_var e.evr) (show_kind e.ek) (show_ord e.eo)
+        | None -> "DISABLED"
+      in
+      match r with
+      | PRow PIdle when is_drop f -> drop_ev TP { (init0 [] []) with ppc = PIdle }
+      | CRow CIdle when is_drop f -> drop_ev TC { (init0 [] []) with cpc = CIdle }
+      | _ -> ev_of_row r)
+    rows
+
+let skel_line (f : string) : string =
+  match List.assoc_opt f skeleton with
+  | Some rows -> Printf.sprintf "skel %s :: %s" f (String.concat " ; " (rows_of f rows))
+  | None -> Printf.sprintf "skel %s :: <not modelled>" f
+
+let () = skel_line_ref := skel_line
+
+let print_skeleton () = List.iter (fun (f, _) -> print_endline (skel_line f)) skeleton
 
 let () =
   if Array.length Sys.argv > 1 && Sys.argv.(1) = "--skeleton" then print_skeleton () else main run
